@@ -339,3 +339,63 @@ func VerifLemma_C16D_DuplicateName() {
 	// adding the same directory again is a no-op
 	verifAssert(m.addModule(ctx, d1) == nil && len(m.moduleConfigs) <= 2, "re-adding a directory is a no-op")
 }
+
+// VerifLemma_C16D_CheckOptions: equivalentLintConfigInV2 / equivalentBreakingConfigInV2 (the real functions, on the
+// stub bufcheck client) carry every scalar option and every path list of a v1 / v1beta1 config over unchanged:
+// enum_zero_value_suffix, rpc_allow_same_request_response, rpc_allow_google_protobuf_empty_requests / _responses,
+// service_suffix, allow_comment_ignores, disable_builtin, ignore_unstable_packages, ignore, ignore_only, and the
+// switched-off state; the result is a v2 config.
+func VerifLemma_C16D_CheckOptions() {
+	ctx := context.Background()
+	n := verifParam("N")
+	fileVersion := bufconfig.FileVersionV1
+	if verifNondetBool() {
+		fileVersion = bufconfig.FileVersionV1Beta1
+	}
+	var cc bufconfig.CheckConfig
+	off := verifNondetBool()
+	if off {
+		cc = bufconfig.NewDisabledCheckConfig(fileVersion)
+	} else {
+		var use []string
+		if verifNondetBool() {
+			use = []string{"ENUM_PASCAL_CASE"}
+		}
+		var ignore []string
+		ignoreOnly := map[string][]string{}
+		if verifNondetBool() {
+			ignore = []string{vComp(n)}
+			ignoreOnly["FIELD_LOWER_SNAKE_CASE"] = []string{vComp(n) + "/" + vComp(n)}
+		}
+		var err error
+		cc, err = bufconfig.NewEnabledCheckConfig(fileVersion, use, nil, ignore, ignoreOnly, verifNondetBool())
+		verifAssume(err == nil)
+	}
+	lc := bufconfig.NewLintConfig(cc, verifNondetString(1), verifNondetBool(), verifNondetBool(), verifNondetBool(), verifNondetString(1), verifNondetBool())
+	bc := bufconfig.NewBreakingConfig(cc, verifNondetBool())
+	lc2, err := equivalentLintConfigInV2(ctx, slog.Default(), lc)
+	verifAssert(err == nil, "lint config is migrated")
+	bc2, err := equivalentBreakingConfigInV2(ctx, slog.Default(), bc)
+	verifAssert(err == nil, "breaking config is migrated")
+	verifCover("migrated")
+	verifAssert(lc2.FileVersion() == bufconfig.FileVersionV2 && bc2.FileVersion() == bufconfig.FileVersionV2, "migrated configs are v2")
+	verifAssert(lc2.Disabled() == off && bc2.Disabled() == off, "switched-off state carried over")
+	verifAssert(lc2.EnumZeroValueSuffix() == lc.EnumZeroValueSuffix(), "enum_zero_value_suffix carried over")
+	verifAssert(lc2.RPCAllowSameRequestResponse() == lc.RPCAllowSameRequestResponse(), "rpc_allow_same_request_response carried over")
+	verifAssert(lc2.RPCAllowGoogleProtobufEmptyRequests() == lc.RPCAllowGoogleProtobufEmptyRequests(), "rpc_allow_google_protobuf_empty_requests carried over")
+	verifAssert(lc2.RPCAllowGoogleProtobufEmptyResponses() == lc.RPCAllowGoogleProtobufEmptyResponses(), "rpc_allow_google_protobuf_empty_responses carried over")
+	verifAssert(lc2.ServiceSuffix() == lc.ServiceSuffix(), "service_suffix carried over")
+	verifAssert(lc2.AllowCommentIgnores() == lc.AllowCommentIgnores(), "allow_comment_ignores carried over")
+	verifAssert(bc2.IgnoreUnstablePackages() == bc.IgnoreUnstablePackages(), "ignore_unstable_packages carried over")
+	if !off {
+		verifCover("enabled")
+		verifAssert(lc2.DisableBuiltin() == lc.DisableBuiltin() && bc2.DisableBuiltin() == bc.DisableBuiltin(), "disable_builtin carried over")
+		verifAssert(vStrsEq(lc2.IgnorePaths(), lc.IgnorePaths()) && vStrsEq(bc2.IgnorePaths(), bc.IgnorePaths()), "ignore paths carried over")
+		m1, m2 := lc.IgnoreIDOrCategoryToPaths(), lc2.IgnoreIDOrCategoryToPaths()
+		verifAssert(len(m1) == len(m2), "ignore_only entries carried over (count)")
+		for k, v := range m1 {
+			verifAssert(vStrsEq(m2[k], v), "ignore_only paths carried over")
+		}
+		verifAssert(vStrsEq(vConfiguredIDs(ctx, check.RuleTypeLint, lc2), vConfiguredIDs(ctx, check.RuleTypeLint, lc)), "same lint rules")
+	}
+}
